@@ -91,17 +91,38 @@ def classify(o):
     return "doc" if o.text else "nothing"
 
 
+WALL_LIMIT_S = 30         # per decode of a small input; a normal decode takes a few milliseconds (factor > 1000)
+
+
+class WallClockExceeded(BaseException):
+    pass
+
+
+def _alarm(signum, frame):
+    raise WallClockExceeded("decode still running after %d s" % WALL_LIMIT_S)
+
+
 def hostile_decode(data, ctx, tag, olevel, prefix_of=None, cfgs=None):
+    import signal
+    signal.signal(signal.SIGALRM, _alarm)
     ctx.current = {"input": data if len(data) <= 4000 else data[:4000], "len": len(data), "how": tag, "python_O": bool(olevel)}
     for name, cfg in cfgs:
         STEPS.start(50000 + 400 * len(data))
-        o = harness.decode(data, cfg, exit_on_error=False, parse=True)
+        signal.alarm(WALL_LIMIT_S)
+        try:
+            o = harness.decode(data, cfg, exit_on_error=False, parse=True)
+        finally:
+            signal.alarm(0)
         n = STEPS.stop()
         ctx.counters["steps.counted"] += n
         ctx.counters["inproc.O%d.decodes" % olevel] += 1
         cls = classify(o)
         ctx.see("outcome", cls)
-        if isinstance(o.exc, StepBudgetExceeded):
+        if isinstance(o.exc, WallClockExceeded):
+            ctx.violation("C05/no-prompt-termination", "decoding %d bytes (%s) was still running after %d s of wall clock (a decode of this "
+                          "size normally takes milliseconds); only %d line events in repository code, i.e. the time is spent inside "
+                          "a library call" % (len(data), tag, WALL_LIMIT_S, n))
+        elif isinstance(o.exc, StepBudgetExceeded):
             ctx.violation("C05/step-budget-exceeded", "decoding %d bytes (%s) did not finish: %s" % (len(data), tag, o.exc))
         elif o.exc is not None and not isinstance(o.exc, Exception):
             ctx.violation("C05/non-ordinary-error", "decoding (%s) raised %r which the CLI barriers do not catch" % (tag, o.exc))
@@ -192,7 +213,7 @@ def run_cli(spec, ctx, rng, u, reg):
         ctx.counters["cli.O%d.runs" % (1 if opt else 0)] += 1
         if p is None:
             ctx.count("cli.watchdog")
-            ctx.note("cli watchdog fired for %r" % (tag,))
+            ctx.violation("C05/no-prompt-termination", "peltool -f on a %d-byte file (%s) did not finish within 120 s" % (len(d), tag))
             continue
         err = p.stderr.decode("utf-8", "replace")
         out = p.stdout.decode("utf-8", "replace")
